@@ -3,6 +3,7 @@ package c03
 import (
 	"encoding/json"
 	"fmt"
+	"strings"
 
 	"verif/harness/hx"
 )
@@ -56,6 +57,57 @@ func randVal(c *hx.Ctx, long bool) []byte {
 	}
 }
 
+func cat(a []byte, b ...byte) []byte { return append(append([]byte{}, a...), b...) }
+
+// relatedVal: a value related to what is already there. For a key that already holds a non-empty
+// value, half of the time: a strict prefix, a strict suffix, a strict extension, the same length
+// with one byte changed (first / middle / last), the same value, or empty. Otherwise, a quarter
+// of the time: a value sharing a prefix with the key, or with a value written to some key.
+func relatedVal(c *hx.Ctx, long bool, key, cur []byte, all [][]byte) []byte {
+	if len(cur) > 0 && c.Intn(2) == 0 {
+		switch c.Intn(8) {
+		case 0, 1: // strict prefix
+			if len(cur) >= 2 {
+				return cat(cur[:1+c.Intn(len(cur)-1)])
+			}
+			return nil
+		case 2: // strict extension
+			return cat(cur, c.Bytes(1+c.Intn(8))...)
+		case 3, 4: // same length, one byte changed
+			v := cat(cur)
+			i := []int{0, len(v) / 2, len(v) - 1}[c.Intn(3)]
+			v[i] ^= byte(1 + c.Intn(255))
+			return v
+		case 5: // same value
+			return cat(cur)
+		case 6: // strict suffix
+			if len(cur) >= 2 {
+				return cat(cur[1+c.Intn(len(cur)-1):])
+			}
+			return nil
+		default:
+			return nil
+		}
+	}
+	if c.Intn(4) == 0 {
+		src := key
+		if len(all) > 0 && c.Intn(2) == 0 {
+			src = all[c.Intn(len(all))]
+		}
+		if len(src) > 0 {
+			switch c.Intn(3) {
+			case 0: // a prefix of it (possibly all of it)
+				return cat(src[:1+c.Intn(len(src))])
+			case 1: // a prefix of it, then something else
+				return cat(src[:1+c.Intn(len(src))], c.Bytes(1+c.Intn(6))...)
+			default: // all of it and more
+				return cat(src, c.Bytes(1+c.Intn(6))...)
+			}
+		}
+	}
+	return randVal(c, long)
+}
+
 // randHistory: nops operations over a pool of npool keys.
 func randHistory(c *hx.Ctx, nops, npool int, long bool) Input {
 	addrs := [][]byte{c.Bytes(20), c.Bytes(20)}
@@ -66,6 +118,8 @@ func randHistory(c *hx.Ctx, nops, npool int, long bool) Input {
 	}
 	var in Input
 	last := map[string]*Op{}
+	cur := map[string][]byte{} // last non-empty value written to the key
+	var allVals [][]byte
 	for i := 0; i < nops; i++ {
 		k := pool[c.Intn(len(pool))]
 		o := Op{K: hx.Hex(k)}
@@ -76,11 +130,15 @@ func randHistory(c *hx.Ctx, nops, npool int, long bool) Input {
 		case r == 3 && prev != nil:
 			o = *prev // the same operation again (overwrite with the same value)
 		default:
-			o.V = hx.Hex(randVal(c, long))
+			o.V = hx.Hex(relatedVal(c, long, k, cur[o.K], allVals))
 		}
 		in.Ops = append(in.Ops, o)
 		oc := o
 		last[o.K] = &oc
+		if !o.Del && o.V != "" {
+			cur[o.K] = o.val() // the bytes an in-place comparison with "the stored value" would see
+			allVals = append(allVals, o.val())
+		}
 	}
 	// backing store: some of the touched keys (sometimes already holding the final value) and others
 	// (a third of the touched keys; half of those hold a value that the history also writes, so that
@@ -111,6 +169,8 @@ func randHistory(c *hx.Ctx, nops, npool int, long bool) Input {
 func classify(c *hx.Ctx, ops []Op) (nontrivial bool) {
 	seen := map[string]Op{}
 	over, same, recreate, delUntouched, emptyPut := 0, 0, 0, 0, 0
+	curv := map[string]string{} // last non-empty value written to the key (hex)
+	rel := map[string]int{}
 	for _, o := range ops {
 		p, touched := seen[o.K]
 		switch {
@@ -125,6 +185,21 @@ func classify(c *hx.Ctx, ops []Op) (nontrivial bool) {
 		}
 		if !o.Del && o.V == "" {
 			emptyPut++
+		}
+		if cv, has := curv[o.K]; has && !o.Del && o.V != "" && o.V != cv {
+			switch {
+			case strings.HasPrefix(cv, o.V):
+				rel["overwrite-with-strict-prefix"]++
+			case strings.HasPrefix(o.V, cv):
+				rel["overwrite-with-strict-extension"]++
+			case strings.HasSuffix(cv, o.V):
+				rel["overwrite-with-strict-suffix"]++
+			case len(cv) == len(o.V):
+				rel["overwrite-same-length-other-bytes"]++
+			}
+		}
+		if !o.Del && o.V != "" {
+			curv[o.K] = o.V
 		}
 		if o.Del {
 			c.Count("op:delete")
@@ -147,6 +222,9 @@ func classify(c *hx.Ctx, ops []Op) (nontrivial bool) {
 	cnt("delete-then-recreate", recreate)
 	cnt("delete-of-untouched-key", delUntouched)
 	cnt("put-empty-value", emptyPut)
+	for _, name := range []string{"overwrite-with-strict-prefix", "overwrite-with-strict-extension", "overwrite-with-strict-suffix", "overwrite-same-length-other-bytes"} {
+		cnt(name, rel[name])
+	}
 	c.Count(fmt.Sprintf("ops<=%d", bucket(len(ops), []int{1, 4, 12, 40, 100, 400, 2000})))
 	c.Count(fmt.Sprintf("keys<=%d", bucket(len(seen), []int{1, 2, 4, 8, 32, 128, 1000})))
 	return len(seen) >= 2 && over+same+recreate > 0
@@ -222,7 +300,8 @@ func replayInput(c *hx.Ctx, in Input) {
 func put(k, v string) Op { return Op{K: hx.Hex([]byte(k)), V: hx.Hex([]byte(v))} }
 func del(k string) Op    { return Op{Del: true, K: hx.Hex([]byte(k))} }
 
-// fixed probes: the situations the property text names, and key-order corner cases
+// fixed probes (run on every seed): the situations the property text names, key-order corner
+// cases, and overwrites with related values
 func probes() []Input {
 	return []Input{
 		{Ops: []Op{}},
@@ -237,6 +316,21 @@ func probes() []Input {
 		{Ops: []Op{put("ab", "c")}},
 		{Ops: []Op{put("a", "bc")}},
 		{Ops: []Op{put("k", ""), put("j", "x")}},
+		// overwriting with a related value: strict prefix, extension, one byte changed, suffix
+		{Ops: []Op{put("k", "abcdef"), put("k", "abc")}},
+		{Ops: []Op{put("k", "abcdef"), put("k", "a")}},
+		{Ops: []Op{put("k", "abc"), put("k", "abcdef")}},
+		{Ops: []Op{put("k", "abcdef"), put("k", "Xbcdef")}},
+		{Ops: []Op{put("k", "abcdef"), put("k", "abXdef")}},
+		{Ops: []Op{put("k", "abcdef"), put("k", "abcdeX")}},
+		{Ops: []Op{put("k", "abcdef"), put("k", "def")}},
+		{Ops: []Op{put("k", "abcdef"), put("k", "abc"), put("k", "abcdef"), put("k", "abcde")}},
+		{Ops: []Op{put("k", "abcdef"), del("k"), put("k", "abc")}},
+		{Ops: []Op{put("k", "abc"), put("k", ""), put("k", "ab")}},
+		{Ops: []Op{put("k", "abcdef"), put("j", "abc"), put("k", "abcd"), put("j", "ab"), put("l", "abcdef")}},
+		{Ops: []Op{put("key", "key"), put("key", "ke"), put("ke", "key"), put("ke", "k")}},
+		{Ops: []Op{put("k", strings.Repeat("0123456789", 10)), put("k", strings.Repeat("0123456789", 10)[:99])},
+			Base: [][2]string{{hx.Hex([]byte("k")), hx.Hex([]byte("0123"))}}},
 	}
 }
 
